@@ -191,6 +191,13 @@ pub fn next_calls(fam: &Family, st: &EnumState) -> Vec<Call> {
                             _ => Call::Horner(t[0], t[1], t[2], t[3]),
                         });
                     }
+                    // a Horner chain starts from the constant zero accumulator (the only
+                    // start the ALU table supports): always offered, even without atoms
+                    if matches!(vk, VK::Horner) && fam.wide_no_atoms {
+                        for t in operand_tuples(fam, st, 3, false, false, true) {
+                            out.push(Call::Horner(Opnd::C(0), t[0], t[1], t[2]));
+                        }
+                    }
                 }
                 VK::Bits(n) => {
                     // decompose a handle or a fresh public
